@@ -7,7 +7,7 @@ from streams.loop import compare  # noqa: F401
 
 PID = "C12"
 LEVEL = "proof"
-LEAN_TARGETS = ["SyneTune.Props.C12"]
+LEAN_TARGETS = ["SyneTune.Props.C12", "SyneTune.Props.C12b"]
 DRIVER = "SyneTune/Drivers/Loop.lean"
 THEOREMS = [
     "SyneTune.C12.exit_criterion",
@@ -23,6 +23,26 @@ THEOREMS = [
     "SyneTune.C12.exception_enters_finally",
     "SyneTune.C12.results_stored",
     "SyneTune.C12.counters",
+    "SyneTune.C12b.completed_before",
+    "SyneTune.C12b.completed_first",
+    "SyneTune.C12b.completed_overshoot_partial",
+    "SyneTune.C12b.completed_overshoot_wait",
+    "SyneTune.C12b.completed_plus_running",
+    "SyneTune.C12b.completed_overshoot_counterexample",
+    "SyneTune.C12b.finished_before",
+    "SyneTune.C12b.finished_first",
+    "SyneTune.C12b.finished_overshoot_partial",
+    "SyneTune.C12b.finished_overshoot_counterexample",
+    "SyneTune.C12b.finished_mark",
+    "SyneTune.C12b.finished_marked_counterexample",
+    "SyneTune.C12b.finished_end_partial",
+    "SyneTune.C12b.finished_end_swd",
+    "SyneTune.C12b.finished_end_counterexample",
+    "SyneTune.C12b.evals_before",
+    "SyneTune.C12b.evals_first",
+    "SyneTune.C12b.evals_overshoot_partial",
+    "SyneTune.C12b.evals_workers_counterexample",
+    "SyneTune.C12b.evals_wait_counterexample",
 ]
 TRUSTED = [
     "hand-written model lean/SyneTune/Model/{Tuner,TuningStatus,StoppingCriterion}.lean tied to /repo by the loop correspondence stream",
